@@ -367,6 +367,12 @@ Proof.
   destruct (negb ttl); intros E _; inversion E; subst; simpl; rewrite ?lookup_store_same; eauto.
 Qed.
 
+(* a Kubernetes unit's replies show neither secret, whatever they are, and nothing else changes *)
+Lemma kube_view_hides r :
+  k_config (kube_view r) = [] /\ k_pod (kube_view r) = [] /\
+  k_namespace (kube_view r) = k_namespace r /\ k_image (kube_view r) = k_image r.
+Proof. repeat split. Qed.
+
 (* ---------- a concrete history: hypotheses satisfiable, replies do show the unit ---------- *)
 
 Definition ex_params : params :=
